@@ -94,6 +94,9 @@ func c08Univ() *c08Universe {
 		add("root-rollover-new-with-old", rollover)
 		lroll := kit.MakeCert(kit.CertSpec{Name: "leaf5.pool.test", Key: "p256_1", Issuer: rollover, Serial: 15, DNSNames: []string{"leaf5.pool.test"}})
 		u.leafs = append(u.leafs, add("leaf-under-rollover", lroll))
+		// the root's key certified once more with pathLenConstraint 0: a verified parent of inter1 that chain building
+		// must refuse two levels above a leaf (a CA lies in between) but may use directly above one
+		add("root-reissued-pathlen0", kit.MakeCert(kit.CertSpec{Name: "Pool Root", Key: "p256_12", IsCA: true, MaxPathLen: 0, Serial: 16, SKI: []byte{9, 9, 9, 1}}))
 		c08U = u
 	})
 	return c08U
